@@ -54,7 +54,7 @@ class Task final {
    */
   [[nodiscard]] bool Ready() const& noexcept {
     YACLIB_ASSERT(Valid());
-    return !_core->Empty();
+    return _core->Ready();
   }
 
   /**
